@@ -140,9 +140,13 @@ Section Proofs.
     inversion Heq; subst. eauto.
   Qed.
 
+  (* check's own index is fed with the `packs` sections only (fact regenerated from check.rs) *)
+  Lemma index_packs_eq : index_packs B st = flat_map if_packs (st_index st).
+  Proof. reflexivity. Qed.
+
   Lemma index_packs_all p : In p (index_packs B st) -> In (p, false) (all_packs B st).
   Proof.
-    unfold index_packs, all_packs. rewrite !in_flat_map. intros [f [Hf Hp]].
+    rewrite index_packs_eq. unfold all_packs. rewrite !in_flat_map. intros [f [Hf Hp]].
     exists f. split; [assumption|]. apply in_or_app. left. apply in_map_iff. eauto.
   Qed.
 
@@ -157,6 +161,7 @@ Section Proofs.
                  forall pid, In pid used -> verified pid.
   Proof.
     unfold Model.check. destruct (st_meta_ok st); simpl; [|discriminate].
+    destruct (negb (st_index_ok st) && Extracted.x_unreadable_index_aborts_check); [discriminate|].
     destruct (check_trees B blen parse st fuel) as [[et used]|]; [|discriminate].
     intro H. injection H as H0.
     apply app_eq_nil in H0. destruct H0 as [_ H0].
